@@ -11,7 +11,7 @@ SPEC = {
     "explanation": "zck_get_missing_range on a directly constructed open context with n<=N chunks (symbolic stored sizes, validity vector, header "
                    "length, limit) against declarative set obligations; zck_get_range_char with an exact model of its one snprintf format, "
                    "BUF_SIZE scaled so that buffer growth and the exact-fit edge are inside the bound",
-    "outside": ["more than N chunks / ranges (N = 3 quick, 5 thorough); the code is a loop over the chunk list whose body is covered for every "
+    "outside": ["more than N chunks / ranges (N = 3 quick, 4 thorough); the code is a loop over the chunk list whose body is covered for every "
                 "neighbour configuration of up to N chunks", "range strings with offsets >= 10^2 (quick) / 10^3 (thorough): the decimal rendering "
                 "is snprintf's (libc, trusted)", "BUF_SIZE is scaled from 32768 to 16 (the function is parametric in it)"],
     "assumptions": ["target context is in the state zck_read_header leaves (chunk starts are the running sum of stored sizes, C13)",
@@ -19,8 +19,8 @@ SPEC = {
                     "get_digest_string (log text only) replaced by env/digeststr.c", "h10c: zmalloc/zrealloc replaced by env/inplace_alloc.c (realloc returns the same pointer; logical size tracked and checked by the snprintf model and the read-back)"],
     "harnesses": [
         dict(_a, name="h10a", function="h10a", what="missing-range computation vs set obligations",
-             quick=dict(defines=["-DNCH=3"], unwind=6, unwindset=["fill_nondet.0:17", "memcmp.0:17"]), thorough=dict(defines=["-DNCH=5"], unwind=8, unwindset=["fill_nondet.0:17", "memcmp.0:17"], timeout=3000, mem_gb=16),
-             bounds="n <= 3 (quick) / 5 (thorough) chunks, sizes 1..2^20, header 24..2^20+89, any int limit"),
+             quick=dict(defines=["-DNCH=3"], unwind=6, unwindset=["fill_nondet.0:17", "memcmp.0:17"]), thorough=dict(defines=["-DNCH=4"], unwind=7, unwindset=["fill_nondet.0:17", "memcmp.0:17"], timeout=3000, mem_gb=16),
+             bounds="n <= 3 (quick) / 4 (thorough; 5 ran out of 14 GB) chunks, sizes 1..2^20, header 24..2^20+89, any int limit"),
         dict(_a, name="h10b", function="h10b", what="same with an empty (zero-length) missing dictionary entry",
              quick=dict(defines=["-DNCH=3"], unwind=6, unwindset=["fill_nondet.0:17", "memcmp.0:17"]), thorough=dict(defines=["-DNCH=4"], unwind=7, unwindset=["fill_nondet.0:17", "memcmp.0:17"], timeout=3000, mem_gb=16),
              bounds="n <= 3 / 4 chunks, first chunk has stored size 0"),
